@@ -28,7 +28,7 @@ for sid in sorted(os.listdir(ROOT)):
         for c in [prop]+also.get(sid,[]):
             ev=f"/verif/evidence/{c}.json"; bak=None
             if os.path.exists(ev): bak=ev+".bak"; shutil.copy(ev,bak)
-            r=sh(f"cd /verif && timeout 1200 ./check {c} quick")
+            r=sh(f"cd /verif && timeout 2400 ./check {c} quick")
             if bak: shutil.move(bak,ev)
             sigs=[l.strip()[len("signature: "):] for l in r.stdout.splitlines() if l.strip().startswith("signature: ")]
             viol=[l for l in r.stdout.splitlines() if l.startswith("VIOLATION")]
